@@ -36,11 +36,18 @@ type C05Scenario struct {
 	Image      ImageSpec     `json:"image"`
 	Extractors []ListExtSpec `json:"extractors"`
 	Via        string        `json:"via,omitempty"`
+	// CancelAt > 0: the scan context ends inside the CancelAt-th Extract call (counted over all
+	// extractors, main scan and tracing); Deadline: it ends the way an expired deadline does.  The
+	// harness extractors honour the context at the START of Extract (as apk, dpkg do): they return
+	// ctx.Err() when it has ended.  A scan that nevertheless reports SUCCEEDED must carry the right
+	// attribution; one that reports failure is not examined.
+	CancelAt int  `json:"cancel_at,omitempty"`
+	Deadline bool `json:"deadline,omitempty"`
 }
 
 func (C05) ID() string { return "C05" }
 func (C05) Rule() string {
-	return "layer histories of 1-6 real layers plus 0-3 empty history entries in any position (valid, missing or inconsistent histories) over 1-3 package-list files in the line format 'name version'; per layer each file is untouched, created, rewritten (packages added / removed / version-bumped with identical byte size and identical mtime / kept), deleted by a whiteout of the file or of an ancestor directory, or re-created; in 3 of 4 scenarios every layer carries a unique marker file (distinct diff IDs), otherwise layers may be byte-identical repeats of any earlier one (equal diff IDs, e.g. re-adding what a layer in between removed); distinct created_by per history entry; 1-2 harness extractors with different purl types which may require the same file; real FromV1Image/FromTarball -> real Scanner.ScanContainer (real trace.PopulateLayerDetails re-running the real filesystem.Run on older views); side check: existence and content of the list files in every view against the OCI overlay model (a departure that no catalogued C04 deviation explains is reported as views-not-overlay); oracle = brute-force recomputation of 'earliest layer L with (purl, location) present in every view L..last' by opening and parsing the file in EVERY actual chain-layer view; evaluation = one load + one container scan; non-trivial = at least one reported package whose origin is not chain layer 0 or whose file was touched by >= 2 layers; distinct = distinct scenario JSON"
+	return "layer histories of 1-6 real layers plus 0-3 empty history entries in any position (valid, missing or inconsistent histories) over 1-3 package-list files in the line format 'name version'; per layer each file is untouched, created, rewritten (packages added / removed / version-bumped with identical byte size and identical mtime / kept), deleted by a whiteout of the file or of an ancestor directory, or re-created; in 3 of 4 scenarios every layer carries a unique marker file (distinct diff IDs), otherwise layers may be byte-identical repeats of any earlier one (equal diff IDs, e.g. re-adding what a layer in between removed); distinct created_by per history entry; 1-2 harness extractors with different purl types which may require the same file; real FromV1Image/FromTarball -> real Scanner.ScanContainer (real trace.PopulateLayerDetails re-running the real filesystem.Run on older views); side check: existence and content of the list files in every view against the OCI overlay model (a departure that no catalogued C04 deviation explains is reported as views-not-overlay); oracle = brute-force recomputation of 'earliest layer L with (purl, location) present in every view L..last' by opening and parsing the file in EVERY actual chain-layer view; 1 in 4 scenarios end the scan context inside the k-th Extract call (k in 1..4, main scan or tracing; 1 in 3 of them as an expired deadline) with extractors that honour the context at the start of Extract: a scan that then still reports SUCCEEDED must carry the right attribution; evaluation = one load + one container scan; non-trivial = at least one reported package whose origin is not chain layer 0 or whose file was touched by >= 2 layers; distinct = distinct scenario JSON"
 }
 
 var c05Files = []string{"var/lib/db/status", "var/lib/db/extra", "var/lib/alt/status", "etc/pkgs"}
@@ -188,6 +195,10 @@ func (C05) Gen(rt *rapid.T, tier string) any {
 		sc.Image.Layers = append(sc.Image.Layers, l)
 	}
 	genHistory(rt, &sc.Image, nl, sc.Via == "v1")
+	if rapid.IntRange(0, 3).Draw(rt, "cancel") == 0 {
+		sc.CancelAt = rapid.IntRange(1, 4).Draw(rt, "cancel_at")
+		sc.Deadline = rapid.IntRange(0, 2).Draw(rt, "deadline") == 0
+	}
 	ne := rapid.IntRange(1, 2).Draw(rt, "nextractors")
 	for e := 0; e < ne; e++ {
 		x := ListExtSpec{Name: fmt.Sprintf("list/%c", 'a'+e), PurlType: []string{"generic", "simb"}[e]}
@@ -213,6 +224,8 @@ func (C05) Decode(raw json.RawMessage) (any, error) {
 type listExtractor struct {
 	spec *ListExtSpec
 	rec  *[]extractRec // every Extract call (main scan and layer tracing), if recording
+	// honourCtx: Extract returns ctx.Err() right away when the context has ended
+	honourCtx bool
 	// onExtract, if set, is called at the start of the n-th Extract call (1-based)
 	onExtract func(n int)
 }
@@ -250,6 +263,12 @@ func (e *listExtractor) Extract(ctx context.Context, in *filesystem.ScanInput) (
 	ctxErr := ctx.Err() != nil
 	if e.onExtract != nil && e.rec != nil {
 		e.onExtract(len(*e.rec) + 1)
+	}
+	if e.honourCtx && ctxErr {
+		if e.rec != nil {
+			*e.rec = append(*e.rec, extractRec{Path: in.Path, InfoSize: -1, CtxErr: true})
+		}
+		return inventory.Inventory{}, ctx.Err()
 	}
 	b, err := io.ReadAll(in.Reader)
 	if e.rec != nil {
@@ -312,6 +331,9 @@ func (C05) Run(t *testing.T, scAny any) *sim.Outcome {
 		exts = append(exts, fmt.Sprintf("%s(%s)%v", e.Name, e.PurlType, e.Files))
 	}
 	ctxs := fmt.Sprintf("via=%s extractors=%v %s", sc.Via, exts, sc.Image.String())
+	if sc.CancelAt > 0 {
+		ctxs = fmt.Sprintf("context ends in Extract call %d (deadline=%v) %s", sc.CancelAt, sc.Deadline, ctxs)
+	}
 	out.Sample = ctxs
 	if len(sc.Image.Layers) == 0 || len(sc.Extractors) == 0 {
 		return out
@@ -369,15 +391,38 @@ func (C05) Run(t *testing.T, scAny any) *sim.Outcome {
 	var fsExts []filesystem.Extractor
 	byName := map[string]*listExtractor{}
 	required := map[string]int{}
+	var calls []extractRec
+	ctx, endCtx := cancellable(sc.Deadline)
+	defer endCtx()
 	for i := range sc.Extractors {
-		x := &listExtractor{spec: &sc.Extractors[i]}
+		x := &listExtractor{spec: &sc.Extractors[i], rec: &calls, honourCtx: true}
+		if sc.CancelAt > 0 {
+			x.onExtract = func(n int) {
+				if n == sc.CancelAt {
+					endCtx()
+				}
+			}
+		}
 		fsExts = append(fsExts, x)
 		byName[x.Name()] = x
 		for _, f := range x.spec.Files {
 			required[f]++
 		}
 	}
-	res, err := scalibr.New().ScanContainer(context.Background(), img, &scalibr.ScanConfig{FilesystemExtractors: fsExts})
+	res, err := scalibr.New().ScanContainer(ctx, img, &scalibr.ScanConfig{FilesystemExtractors: fsExts})
+	if sc.CancelAt > 0 && len(calls) >= sc.CancelAt {
+		out.Count("fault_fired_cancel_in_extract", 1)
+		if sc.Deadline {
+			out.Count("fault_fired_as_expired_deadline", 1)
+		}
+		if err != nil || res == nil || res.Status == nil || res.Status.Status != plugin.ScanStatusSucceeded {
+			// the scan says it was cut short: nothing is claimed about its attribution
+			out.Count("cancelled_scan_reported_failure", 1)
+			out.HistoryFP = sim.FP("cancelled")
+			return out
+		}
+		out.Count("cancelled_scan_reported_success", 1)
+	}
 	if err != nil {
 		out.Violate("scan-failed", "scan-failed", "ScanContainer failed: %v; %s", err, ctxs)
 		return out
